@@ -105,7 +105,12 @@ func LoadMachine(js []byte, mpm bool) (*Loaded, error) {
 // Simulate runs one processor for `ticks` steps with constant inputs and returns, per processor output
 // index, the sequence of values written by r2o (observed at the retiring r2o instruction through the
 // machine's own decoder and disassembler).
-func Simulate(m *procbuilder.Machine, inputs []uint64, ticks int) (streams map[int][]uint64, executed int, err error) {
+//
+// intendedJe (the assembly listing the machine was assembled from, one line per ROM location, or nil):
+// when given, `je rA rB T` is executed as what the compiler evidently means by it — jump to T when the
+// two registers are equal, fall through otherwise — instead of the placeholder's no-operation. This is
+// how the search continues behind the recorded je finding: everything else is the real simulator.
+func Simulate(m *procbuilder.Machine, inputs []uint64, ticks int, intendedJe []string) (streams map[int][]uint64, executed int, err error) {
 	defer func() {
 		if r := recover(); r != nil {
 			err = fmt.Errorf("simulator panic: %v", r)
@@ -138,6 +143,26 @@ func Simulate(m *procbuilder.Machine, inputs []uint64, ticks int) (streams map[i
 		}
 		op := m.Arch.Conproc.Op[oid]
 		watch := -1
+		if intendedJe != nil && op.Op_get_name() == placeholderJe {
+			if int(vm.Pc) >= len(intendedJe) {
+				return streams, executed, fmt.Errorf("je at %d beyond the listing", vm.Pc)
+			}
+			f := strings.Fields(intendedJe[vm.Pc])
+			var a, b, tgt int
+			if len(f) != 4 || f[0] != "je" {
+				return streams, executed, fmt.Errorf("listing line %d is %q, the ROM holds je", vm.Pc, intendedJe[vm.Pc])
+			}
+			if _, e := fmt.Sscanf(f[1]+" "+f[2]+" "+f[3], "r%d r%d %d", &a, &b, &tgt); e != nil || a >= len(vm.Registers) || b >= len(vm.Registers) {
+				return streams, executed, fmt.Errorf("cannot read %q", intendedJe[vm.Pc])
+			}
+			if gen.U64(vm.Registers[a]) == gen.U64(vm.Registers[b]) {
+				vm.Pc = uint64(tgt)
+			} else {
+				vm.Pc++
+			}
+			executed++
+			continue
+		}
 		if op.Op_get_name() == "r2o" {
 			dis, derr := op.Disassembler(&m.Arch, instr[opBits:])
 			if derr != nil {
